@@ -12,6 +12,9 @@ CLAIMED = {
  'C13': dict(level='model_checking', engine='e1-cbmc', design='§5 C13', technique='IR->C translation of the real HistogramNew::Process + CBMC (bit-precise doubles/ints, bounds checks) for memory safety; symbolic execution + z3 (linear int/real) for bin semantics, normalisation and the legacy auto range',
    text='E1: for every finite v, scale, min<max, step>0 and nbins<=8 (thorough 64), periodic or not, CBMC shows every memory access of the translated real Process stays inside the nbins-double buffer (unwinding assertions on, reachability witness). E2: for nbins<=3 (thorough 5), all real min, listed range lengths, all real values/weights, each bin ends up with exactly the weights of the values whose nearest centre it is (wrapped modulo nbins when periodic, dropped otherwise), bins sum to the accepted weight, Normalize keeps ratios and makes sum*step=1, and the legacy Histogram automatic range is exactly [min,max] of the data for any sign.',
    note='allocation failure out of scope; out-of-range double->int64 conversion reported as UB-CLASS (not a violation); E2 in exact reals; legacy histogram only for n_=3, auto range, no scaling'),
+ 'C14': dict(level='other', design='§5 C14', technique='symbolic execution of the real Huffman-tree construction and lookup with symbolic rates (forking on priority-queue comparisons), exact interval measures decided by z3 per tree shape; Marcus rates via canonical exp/sqrt symbols',
+   text='For n = 1..4 (thorough 5) events with arbitrary positive real rates and every heap ordering the real GNode/huffmanTree code can take, the set of p in [0,1] for which findHoppingDestination returns event e has total length exactly rate_e / sum(rates), every p selects a valid event, escape rate = sum of rates, also when the tree is rebuilt after adding events. Rate_Engine::Rate for all four carrier types: both rates positive, linear in J^2, exponents differ by (E1-E2+qF.R)/kT and prefactors coincide for equal reorganisation energies (detailed balance), zero reorganisation energy rejected. Promotetime(k)*k = -log(1-u).',
+   note='exact reals; n<=5 events is a bound (the statement speaks of up to 100); field-term sign as in the code (see DESIGN); objects are raw storage with the fields the kernels read; RNG is a symbol'),
  'C18': dict(level='model_checking', engine='e1-cbmc', design='§5 C18', technique='IR->C translation of the real wildcmp + CBMC against a dynamic-programming glob matcher (bit-precise, all byte values); symbolic execution of the real RangeParser with placeholder tokens for the integers + z3',
    text='E1: for every pattern and string of length <= 5 (thorough 7) over the full 8-bit alphabet the real wildcmp returns exactly the glob verdict, and with exactly sized buffers (length <= 3, thorough 4) it never reads past a terminator; unwinding assertions on. E2: for begin/stride/end in [-3,3] (thorough [-6,6]) as solver integers and the forms a:s:b, a:b, a and two-block lists, every path of the real Parse/ParseBlock/iterator/operator<< is explored: accepted expressions terminate and enumerate exactly b, b+s, ... up to e in order, rejection happens only for stride 0 or wrong direction, every valid expression is accepted, printing and re-parsing gives the same sequence, more than three fields are rejected.',
    note='decimal digit conversion is abstracted by placeholder tokens (strtol / ostream<<long models); IndexParser and BeadList name: selection are not covered; lengths and integer window are bounds'),
